@@ -265,12 +265,24 @@ func exRel(a kv) string {
 	for _, other := range []string{"bin/bin/probe.sh", "probe.sh", "bin/bin/bin/probe.sh"} {
 		mk(other, "bad", 1000, 0o777)
 	}
+	// `current` is a symlink into another tree: `current/../bin/probe.sh` is, for the kernel, elsewhere/bin/probe.sh
+	// (follow the link, THEN go up) - lexically collapsing `current/..` first would name bin/probe.sh instead
+	if strings.Contains(a.str("path", ""), "current/..") {
+		mk("elsewhere/rel/x", "unused", 0, 0o755)
+		_ = os.Symlink(filepath.Join(dir, "elsewhere", "rel"), filepath.Join(dir, "current"))
+		if a.str("variant", "bad") == "bad" {
+			mk("elsewhere/bin/probe.sh", "bad", 1000, 0o777)
+		} else {
+			mk("elsewhere/bin/probe.sh", "good2", 0, 0o755)
+		}
+	}
 	if err := os.Chdir(dir); err != nil {
 		panic(err)
 	}
 	run := exRunSafe(a.str("path", "bin/probe.sh"), nil, 2*time.Second)
 	time.Sleep(10 * time.Millisecond)
-	return fmt.Sprintf("run=%s good=%s bad=%s", run, exB01(exCountMarker(exExists(filepath.Join(dir, "good")))), exB01(exExists(filepath.Join(dir, "bad"))))
+	good := exExists(filepath.Join(dir, "good")) || exExists(filepath.Join(dir, "good2"))
+	return fmt.Sprintf("run=%s good=%s bad=%s", run, exB01(exCountMarker(good)), exB01(exExists(filepath.Join(dir, "bad"))))
 }
 
 func exDangling(a kv) string {
@@ -614,6 +626,36 @@ func exUserPair(a kv) (res string) {
 	return fmt.Sprintf("a=%s awithin=%s b=%s bwithin=%s", oa.r, exB01(oa.el <= bound), ob.r, exB01(ob.el <= bound))
 }
 
+// exRepeat: the SAME failing command polled again and again for longer than any "log each message once per N seconds"
+// window: every single call must keep coming back within its bound (what a sensor monitor does with a dead command)
+func exRepeat(a kv) string {
+	dir := execCaseDir()
+	defer os.RemoveAll(dir)
+	defer exKillMarked()
+	script := exBehaviourScript(dir, a.str("beh", "exit3"), -1)
+	n, gap := a.int("n", 14), time.Duration(a.int("gap_ms", 450))*time.Millisecond
+	slow, res := 0, ""
+	for i := 0; i < n; i++ {
+		done := make(chan string, 1)
+		t0 := time.Now()
+		go func() { done <- exRunSafe(script, nil, 2*time.Second) }()
+		select {
+		case r := <-done:
+			if time.Since(t0) > 2500*time.Millisecond {
+				slow++
+			}
+			if strings.HasPrefix(r, "ok:") {
+				r = "ok"
+			}
+			res = r
+		case <-time.After(6 * time.Second):
+			return fmt.Sprintf("res=blocked at=%d slow=%d", i, slow)
+		}
+		time.Sleep(gap)
+	}
+	return fmt.Sprintf("res=%s at=%d slow=%d", res, n, slow)
+}
+
 func init() {
 	register("ex", func(op string, a kv) string {
 		if os.Geteuid() != 0 {
@@ -640,6 +682,8 @@ func init() {
 			return exUser(a)
 		case "ex.userpair":
 			return exUserPair(a)
+		case "ex.repeat":
+			return exRepeat(a)
 		case "ex.reset":
 			execExecuted, execNotExecuted = 0, 0
 			return "ok"
